@@ -35,12 +35,12 @@ theorem fl64_pos_bounds (x : ℚ) (hx : 1 / 1000000000000 ≤ x) :
   constructor <;> linarith [this.1, this.2]
 
 /-- **the quotient of two rounded differences.**  `S E T` are the computed decimal years, `S' E' T'` the exact ones, each
-    within `10^-12`; the exact elapsed part `N' = T' − S'` is at most twice the exact duration `D' = E' − S'`; `ε` is any
-    tolerance with `9·10^-12 ≤ ε·D'`.  Then the binary64 quotient is within `ε + 10^-14` of `N'/D'`. -/
+    within `10^-12`; the exact elapsed part `N' = T' − S'` is at most three times the exact duration `D' = E' − S'`; `ε` is any
+    tolerance with `11·10^-12 ≤ ε·D'`.  Then the binary64 quotient is within `ε + 10^-14` of `N'/D'`. -/
 theorem quotient_close (S E T S' E' T' ε : ℚ)
     (hS : |S - S'| ≤ 1 / 1000000000000) (hE : |E - E'| ≤ 1 / 1000000000000) (hT : |T - T'| ≤ 1 / 1000000000000)
-    (hD0 : 9 / 1000000000000 ≤ E' - S') (hN0 : 9 / 1000000000000 ≤ T' - S') (hN2 : T' - S' ≤ 2 * (E' - S'))
-    (hε0 : 0 ≤ ε) (hε1 : ε ≤ 1) (hεD : 9 / 1000000000000 ≤ ε * (E' - S')) :
+    (hD0 : 9 / 1000000000000 ≤ E' - S') (hN0 : 9 / 1000000000000 ≤ T' - S') (hN2 : T' - S' ≤ 3 * (E' - S'))
+    (hε0 : 0 ≤ ε) (hε1 : ε ≤ 1) (hεD : 11 / 1000000000000 ≤ ε * (E' - S')) :
     |fdiv (fsub T S) (fsub E S) - (T' - S') / (E' - S')| ≤ ε + 1 / 100000000000000 := by
   rw [abs_le] at hS hE hT
   set D' := E' - S' with hD'
@@ -50,7 +50,7 @@ theorem quotient_close (S E T S' E' T' ε : ℚ)
   set q' := N' / D' with hq'
   have hq : q' * D' = N' := by rw [hq']; field_simp
   have hq0 : 0 ≤ q' := div_nonneg (by linarith) hDpos.le
-  have hq2 : q' ≤ 2 := by rw [hq', div_le_iff₀ hDpos]; linarith
+  have hq2 : q' ≤ 3 := by rw [hq', div_le_iff₀ hDpos]; linarith
   -- the two rounded differences
   have ha : 1 / 1000000000000 ≤ E - S := by linarith [hS.1, hS.2, hE.1, hE.2]
   have hb : 1 / 1000000000000 ≤ T - S := by linarith [hS.1, hS.2, hT.1, hT.2]
@@ -98,7 +98,7 @@ theorem quotient_close (S E T S' E' T' ε : ℚ)
   have hrpos : 0 ≤ r := div_nonneg hnumpos.le hdurpos.le
   have hlast := fl64_err_mixed r
   rw [abs_of_nonneg hrpos, abs_le] at hlast
-  have hr3 : r / 9007199254740992 ≤ 4 / 9007199254740992 := by
+  have hr3 : r / 9007199254740992 ≤ 5 / 9007199254740992 := by
     apply div_le_div_of_nonneg_right _ (by norm_num); linarith
   have hr0 : 0 ≤ r / 9007199254740992 := div_nonneg hrpos (by norm_num)
   unfold fdiv fsub
